@@ -39,7 +39,7 @@ MIN_NONTRIVIAL = {"quick": 10000, "thorough": 100000}
 EXTS = [".py", ".ts", ".js", ".rs", ".tsx", ""]
 INTERESTING = [0x00, 0xEF, 0xBB, 0xBF, 0x0D, 0x0A, 0x0C, 0x80, 0xFF, 0x22, 0x27, 0x60, 0x28, 0x29, 0x5B, 0x5D, 0x7B, 0x7D, 0x23, 0x2F, 0x5C, 0x40, 0x3A, 0x20]
 POISON = [b"\x00", b"\xef\xbb\xbf", b"\xff", b"\r", "\u2028".encode(), b"\x0c", b'"']
-SIB = {"sib_a.py": "def sibling_a(value):\n    print(value, 3601)\n    return value\n", "sib_b.ts": "export function siblingB(v: number) {\n  console.log(v);\n  return v * 3601;\n}\n"}
+SIB = {"sib_a.py": "def sibling_a(value, mode):\n    print(value, 3601)\n    if mode == \"fast\" or mode == \"slow\":\n        return value * 2\n    return value\n", "sib_b.ts": "export function siblingB(v: number) {\n  console.log(v);\n  return v * 3601;\n}\n"}
 
 
 class _Timeout(Exception):
@@ -50,8 +50,16 @@ def _alarm(_s, _f):
     raise _Timeout()
 
 
+DIRECTIVE_SEEDS = [
+    ("directives/python", ".py", "# thailint: ignore-file[file-header]\ndef rate(v):\n    print(v)  # thailint: ignore[improper-logging]\n    # thailint: ignore-next-line[magic-numbers]\n    limit = 3601\n    # thailint: ignore-start nesting\n    if v:\n        return limit\n    # thailint: ignore-end\n    return v * 3602  # thailint: ignore[magic-numbers]\n"),
+    ("directives/typescript", ".ts", "// thailint: ignore-file[file-header]\nexport function rate(v: number) {\n  console.log(v); // thailint: ignore[improper-logging]\n  // thailint: ignore-next-line[magic-numbers]\n  const limit = 3601;\n  return v * 3602 + limit; // thailint: ignore[magic-numbers]\n}\n"),
+    ("directives/rust", ".rs", "fn rate(v: Option<i32>) -> i32 {\n    let x = v.unwrap(); // thailint: ignore[unwrap-abuse]\n    x * 3602 // thailint: ignore[magic-numbers]\n}\n"),
+]
+PREFIXES = [b"#!", b"#!/bin/sh\n", b"#!/usr/bin/env python\n", b"#!/usr/bin/env python # caf", b"\xef\xbb\xbf#!/usr/bin/python\n"]
+
+
 def _seeds():
-    out = []
+    out = list(DIRECTIVE_SEEDS)
     for name, lang, fs, _cfg in load.all_triggers():
         for rel, code in fs.items():
             out.append((f"{name}/{lang}", Path(rel).suffix or ".py", code))
@@ -71,6 +79,11 @@ def items(tier: str, seed: int):
         for ext in (".py", ".ts", ".rs"):
             for a in range(256):
                 out.append({"kind": "bytes", "ext": ext, "contents": [bytes([a, b]) for b in range(256)]})
+    # (1b) every single byte (and every pair of interesting bytes) after a script/BOM prefix
+    for ext in EXTS:
+        for pre in PREFIXES:
+            out.append({"kind": "bytes", "ext": ext, "contents": [pre + c for c in singles], "prefix": pre.hex()})
+        out.append({"kind": "bytes", "ext": ext, "contents": [b"#!" + c for c in pairs], "prefix": "2321"})
     # (2) single mutations of seeds
     for sid, ext, code in _seeds():
         out.append({"kind": "mutations", "seed": sid, "ext": ext, "code": code, "step": 3 if tier == "quick" else 1})
@@ -118,8 +131,9 @@ def _sw_sig(rec: str):
     return {"rule": "?", "exc": rec[-40:]}
 
 
-def _run_cases(acc: Acc, cases, kind):
-    """cases: list of (file name, bytes, descriptor)"""
+def _run_cases(acc: Acc, cases, kind, fault_position: int = 0):
+    """cases: list of (file name, bytes, descriptor); fault_position = index of the faulty file in
+    the list handed to lint_files (0 = before the healthy files, 1 = between them)"""
     root = project(dict(SIB))
     o = _orch(root)
     sib_paths = [root / n for n in SIB]
@@ -128,12 +142,13 @@ def _run_cases(acc: Acc, cases, kind):
     for fname, content, desc in cases:
         p = root / fname
         p.write_bytes(content)
-        res, sw = _lint_case(o, root, [p, *sib_paths])
+        order = [*sib_paths[:fault_position], p, *sib_paths[fault_position:]]
+        res, sw = _lint_case(o, root, order)
         acc.case()
         acc.valid()
-        acc.nt((fname, content))
+        acc.nt((fname, content, fault_position))
         ext = Path(fname).suffix or "<none>"
-        case = {"file": fname, "content_hex": content[:4000].hex(), "desc": desc, "kind": kind}
+        case = {"file": fname, "content_hex": content[:4000].hex(), "desc": desc, "kind": kind, "fault_position": fault_position}
         acc.outcome((res[0], len(sw)))
         if res[0] == "timeout":
             acc.fail({"mode": "hang", "ext": ext, "fault": desc.split("@")[0]}, case, "terminates", "no result within 10 s")
@@ -190,6 +205,7 @@ def run_item(item) -> Acc:
     elif k == "mutations":
         muts = _mutations(item["code"], item["step"])
         _run_cases(acc, [(f"fault{item['ext']}", c, f"{d}|seed={item['seed']}") for c, d in muts], k)
+        _run_cases(acc, [(f"fault{item['ext']}", c, f"{d}|seed={item['seed']}") for c, d in muts], k, fault_position=1)
         acc.sample({"seed": item["seed"], "mutations": len(muts), "example": muts[len(muts) // 2][1]})
     elif k == "size":
         lang = item["lang"]
@@ -274,5 +290,5 @@ def replay_case(case) -> list[dict]:
     r = obs.cli_subprocess(["improper-logging", "--format", "json", "."], root)
     print(f"fresh process (improper-logging on the directory): exit={r['exit_code']} swallowed={r['swallowed'][:2]}")
     remove(root)
-    _run_cases(acc, [(case["file"], content, case["desc"])], case.get("kind", "replay"))
+    _run_cases(acc, [(case["file"], content, case["desc"])], case.get("kind", "replay"), fault_position=case.get("fault_position", 0))
     return acc.failures
